@@ -5,6 +5,7 @@ from .common import *
 from .isomsg import *
 
 PROPERTY = 'C01'
+DEBUG_LOG = ['single/latin_1/bin']      # obligations that are also explored with debug logging switched on
 PYTHON_O = ['single/latin_1/bin', 'pds-keys/latin_1', 'generic/g-typed/cp037']      # obligations that are also explored with the modules compiled as under python -O
 ASSUMPTIONS = [
     'element subsets are concrete and drawn from a family (every single configured element, pairs, one-of-each-class messages); '
